@@ -88,10 +88,14 @@ type runResult struct {
 }
 
 func runSolver(sp solverSpec, file string, timeoutSec int, extra string) runResult {
+	return runSolverCtx(context.Background(), sp, file, timeoutSec)
+}
+
+func runSolverCtx(parent context.Context, sp solverSpec, file string, timeoutSec int) runResult {
 	args := append([]string{}, sp.cmd[1:]...)
 	args = append(args, sp.tflag(timeoutSec)...)
 	args = append(args, file)
-	ctx, cancel := context.WithTimeout(context.Background(), time.Duration(timeoutSec+2)*time.Second)
+	ctx, cancel := context.WithTimeout(parent, time.Duration(timeoutSec+2)*time.Second)
 	defer cancel()
 	cmd := exec.CommandContext(ctx, sp.cmd[0], args...)
 	cmd.SysProcAttr = &syscall.SysProcAttr{Setpgid: true}
@@ -109,6 +113,10 @@ func runSolver(sp solverSpec, file string, timeoutSec int, extra string) runResu
 		}
 	}
 	r := runResult{output: text, secs: secs}
+	if parent.Err() != nil {
+		r.verdict = "cancelled"
+		return r
+	}
 	switch {
 	case strings.Contains(text, "(error") && first != "unsat" && first != "sat":
 		r.verdict = "error"
@@ -165,19 +173,24 @@ func (e *Engine) discharge(o *Oblig, dir string, timeoutSec int, thorough bool) 
 		o.Model = e.getModel(solvers[0], fname, timeoutSec)
 		return
 	}
-	// stage 2: all solvers in parallel
+	// stage 2: all solvers in parallel; the first definite answer wins (thorough: wait for all, record agreement)
 	type res struct {
 		sp solverSpec
 		r  runResult
 	}
 	ch := make(chan res, len(solvers))
+	cctx, cancelAll := context.WithCancel(context.Background())
+	defer cancelAll()
 	for _, sp := range solvers {
-		go func(sp solverSpec) { ch <- res{sp, runSolver(sp, fname, timeoutSec, "")} }(sp)
+		go func(sp solverSpec) { ch <- res{sp, runSolverCtx(cctx, sp, fname, timeoutSec)} }(sp)
 	}
 	agree := 0
 	var total float64
 	for range solvers {
 		x := <-ch
+		if x.r.verdict == "cancelled" {
+			continue
+		}
 		o.Output += fmt.Sprintf("\n[%s %.2fs] %s", x.sp.name, x.r.secs, strings.TrimSpace(firstLines(x.r.output, 3)))
 		switch x.r.verdict {
 		case "unsat":
@@ -190,11 +203,17 @@ func (e *Engine) discharge(o *Oblig, dir string, timeoutSec int, thorough bool) 
 			} else if o.Verdict != "conflict" {
 				o.Verdict = "unsat"
 			}
+			if !thorough {
+				cancelAll()
+			}
 		case "sat":
 			if o.Verdict == "unsat" {
 				o.Verdict = "conflict"
 			} else if o.Verdict != "conflict" {
 				o.Verdict, o.Solver, o.Secs = "sat", x.sp.name, x.r.secs
+			}
+			if !thorough {
+				cancelAll()
 			}
 		}
 		total += x.r.secs
